@@ -25,6 +25,15 @@ theorem dynamic_sound (H : Hier) (c : ClassId) (newName : NameId) (captured : Im
   refine ⟨by simp [aliasCall, h, callNew], ?_⟩
   exact foundAlong_lookup H newName captured _ h
 
+/-- **Every subclass, present or future**: if the class `d` that holds the alias also holds the
+captured replacement under the new name (what `aliases_ok` checks for every definition of the
+package), then on a receiver of *any* class `c` having `d` in its mro - whatever `c` and the
+classes between them define or redefine - the alias runs exactly what the new name runs. -/
+theorem inherited_alias_sound (H : Hier) (c d : ClassId) (newName : NameId) (captured : ImplId)
+    (hd : classGet H d newName = some captured) (hmro : d ∈ mroOf H c) :
+    aliasCall H c newName captured = callNew H c newName ∧ callNew H c newName ≠ none :=
+  dynamic_sound H c newName captured (foundAlong_of_mem H newName captured d hd _ hmro)
+
 /-- **Exact condition for the repaired wrapper**: it agrees with the new name iff the captured
 function is found in the receiver's mro, or the new name resolves to the captured function
 anyway. -/
